@@ -162,7 +162,7 @@ pub fn c02() -> Check {
             rule: "1-4 streams opened from either side, per direction a writer (plain/vectored writes incl. empty slices, bursts beyond the window, flush, shutdown) and a reader (read with buffers 1..64 or fill_buf+partial consume); (rwnd, threshold) drawn independently per side from {1,2,3,4,8,16}^2, link window from {1,2,8,inf}, optional latency, schedule weights per run. Non-trivial: at least 4 Push and 2 Acknowledge frames crossed the wire.",
             exhaustive_thorough: false,
             stride: 1,
-        }), fam("piecemeal-readers", 100_000, 1_000_000, gen_c02_piecemeal, OracleCfg::default(), None, nt_data, "1-3 streams whose readers take every frame in pieces of 1-3 bytes (read or fill_buf + partial consume), pause between pieces and often start late, while writers send bursts of up to 40 writes, longer than any window, and shut down; the reader reads to end-of-stream. Same oracles as `streams`.")],
+        }), fam("piecemeal-readers", 100_000, 1_000_000, gen_c02_piecemeal, OracleCfg::default(), None, nt_data, "1-3 streams whose readers take every frame in pieces of 1-3 bytes (read or fill_buf + partial consume), pause between pieces and often start late, while writers send bursts of up to 40 writes, longer than any window, and shut down; the reader reads to end-of-stream. Same oracles as `streams`."), fam("id-reuse-with-leftovers", 40000, 400_000, gen_c06_early_reuse, OracleCfg::default(), Some(x_early_reuse_space_only), nt_c06, "the C06 `early-reuse` workload, judged by the byte-stream oracles: the stream that re-uses the flow id of an aborted stream must deliver exactly what its writers wrote, whatever the application still does with the object of the aborted stream.")],
         required_probes: vec!["writer-parked-on-credit", "window-exactly-exhausted", "multiple-streams", "link-backpressure"],
         assumptions: vec!["the WebSocket below the multiplexor is reliable and ordered per direction (PROTOCOL.md); the in-memory link implements tokio-tungstenite's observable contract", "one poll of a task is atomic (single-threaded scheduling; finer interleavings are C12's)"],
         real: vec!["penguin_mux::Multiplexor", "penguin_mux::TaskData::into_task (receive/send/ping/dropped-handle loops, wind_down)", "penguin_mux::MuxStream (AsyncRead, AsyncBufRead, AsyncWrite incl. vectored)", "penguin_mux::frame codec", "cow-bytes", "tokio::sync channels", "tokio paused timer wheel"],
@@ -215,7 +215,8 @@ pub fn c03() -> Check {
     duo_check(
         "C03",
         "exploration",
-        vec![fam("credit", 300000, 3_000_000, gen_c03, OracleCfg::default(), None, nt_c03, "as C02, but stream objects are kept alive until the transfer phase is quiescent (every Reset seen is unexplained by construction), small windows and slow readers so that writers race with acknowledgements. Black-box accountant from the wire monitor: outstanding Push <= advertised window at every Push; one non-empty write = one Push; Acknowledge totals never exceed frames consumed / frames the application started consuming (+1); no Reset of a live established flow. Non-trivial: some sender exhausted the advertised window exactly and >=2 Acknowledge frames crossed the wire.")],
+        vec![fam("credit", 300000, 3_000_000, gen_c03, OracleCfg::default(), None, nt_c03, "as C02, but stream objects are kept alive until the transfer phase is quiescent (every Reset seen is unexplained by construction), small windows and slow readers so that writers race with acknowledgements. Black-box accountant from the wire monitor: outstanding Push <= advertised window at every Push; one non-empty write = one Push; Acknowledge totals never exceed frames consumed / frames the application started consuming (+1); no Reset of a live established flow. Non-trivial: some sender exhausted the advertised window exactly and >=2 Acknowledge frames crossed the wire."),
+            fam("id-reuse-with-leftovers", 40000, 400_000, gen_c06_early_reuse, OracleCfg::default(), Some(x_early_reuse_space_only), nt_c06, "the C06 `early-reuse` workload (one side aborts, the id is re-used at once, the other application lets go of its old object later and may read the frames still buffered in it only then), judged by the credit accountant: no frame of the dead flow may be acknowledged into the new stream (no more Push frames on the wire than the window advertised for the new stream, no Reset of a stream both applications hold).")],
         vec!["writer-parked-on-credit", "window-exactly-exhausted", "ack-crossing-push"],
     )
 }
@@ -603,6 +604,12 @@ fn c06_early_in_space(p: &Plan) -> bool {
             && sd.r.iter().all(|o| matches!(o, ROp::ReadEof { .. } | ROp::AwaitOpened(1) | ROp::Yield(_)))
     };
     (0..2).any(|a| is_first(&s0.sides[a]) && is_last(&s0.sides[1 - a], s0.sides[a].w.len() > 1))
+}
+/// for checks of other properties that borrow the early-reuse workload: only the family-space guard
+fn x_early_reuse_space_only(r: &DuoRun, _wm: &WireModel, _ei: &EndInfo, o: &mut Outcome) {
+    if !c06_early_in_space(&r.plan) {
+        o.violations.clear();
+    }
 }
 fn x_c06_early(r: &DuoRun, _wm: &WireModel, ei: &EndInfo, o: &mut Outcome) {
     if !c06_early_in_space(&r.plan) {
